@@ -16,11 +16,12 @@ LEVEL_TEXT = ("Lean theorems: (1) FORWARD SIMULATION definitional semantics => m
               "End to end: for a program of the fragment, the bytes the compiler model emits (code generator, operand-width check, byte encoder), loaded by VM.start and run, give the value of the semantics' result / the same error kind for every large enough budget "
               "(C01_control_flow_program from SOURCE trees including the resolver, C01_function_program from resolved trees); with functions the machine may instead stop at its 65535-slot/frame limit, which the semantics does not have. "
               "(5) HEAP VALUES at top level: floats (boxed on the machine), strings and arrays shared by reference (injective address map growing with each allocation, cell-wise heap relation), string constants copied on evaluation, indexing and index assignment with aliasing, all operators on all value kinds, all seven builtins incl. print (deep views with cycles agree), errors matched after the same printed output; C01_heap_source_program: for a parsed program passing the decidable, proved-sound fragment check the halting value's deep view and the printed output are the definitional ones. "
+              "(6) R1 OF THE RESOLVER, NO PER-PROGRAM VALIDATION: C01_function_free_source_program / C01_function_free_eval_text: for EVERY source tree without function literals, user calls and antwoord (a syntactic, decidable condition SimH.SHB on the parsed tree: all literals, operators, assignments to names and indexed elements, lists, indexing, all builtins, als/zolang/blocks/stel, stop/volgende with no operand pending) eval answers what the definitional semantics answers, resolver and code generator included, by induction over the resolver (SimH.resolve_hb); C01_function_program_no_validation: the same for the syntactic fragment with top-level function definitions, calls, recursion, locals in nested block scopes and antwoord (SimF.SrcTop, SimF.resolve_ytop: contexts, slot numbering with reuse, max_size as locals count, distinct function ids). "
               "(2) the semantics is well defined: more fuel never changes a finished evaluation (whole language); more budget never changes a finished run. "
               "Outside the proved fragments (heap values together with calls - collections then run; nested function literals; stop/volgende under pending operands, where the property is false - finding K3) the property is decided by the correspondence: "
               "the real eval (value, printed output, error kind) against the definitional evaluator Spec.evalProgram on bounded-exhaustive, boundary and type-directed random programs, and against the machine model (steps, stack at Halt, collections).")
 LEVEL_NOTE = ("Trusted: Lean kernel (axioms propext, Classical.choice, Quot.sound); the hand-written model is tied to the code by the correspondence only; harness/driver I/O; Rust std. "
-              "Partial: the simulation theorem covers scalars+functions and heap values at top level, not yet heap values across calls (collections); the resolver part (R1) is proved for the control-flow fragment, for functions the theorem starts from resolved trees satisfying the fragment predicate YTop.")
+              "Partial: the simulation theorem covers scalars+functions and heap values at top level, not yet heap values across calls (collections); the resolver part (R1) is proved for the control-flow fragment, for the whole function-free language (stage 5) and for the syntactic function fragment (stage 4); outside those syntactic fragments the end-to-end theorems go through the proved-sound per-program validation (inFragment / inFragmentH).")
 TECHNIQUE = 'Lean 4 proof (forward simulation definitional semantics => bytecode machine by induction on fuel; fuel/budget monotonicity) + differential correspondence eval vs Spec.eval vs machine model'
 RULE = ("programs: (a) bounded-exhaustive over the template grammar of checklib/enum.py, (b) type-directed "
         "random programs (checklib/gen.py) of 5-60 nodes, (c) the repository's examples/*.nl; a case is "
